@@ -6,7 +6,7 @@ import Pycoin.Spec.Merkle
 import Pycoin.Model.Block
 import Pycoin.DriverLib.TxText
 namespace Pycoin.Driver.C14
-open Pycoin.Driver Pycoin.Hash
+open Pycoin Pycoin.Driver Pycoin.Hash
 
 /-- `0110…` one character per leaf -/
 def parseBits? (s : String) : Option (List Bool) :=
@@ -15,6 +15,42 @@ def parseBits? (s : String) : Option (List Bool) :=
 
 def leafFn (hs : List Bytes) : Nat → Bytes := fun i => hs[i]?.getD []
 def matchFn (ms : List Bool) : Nat → Bool := fun i => ms[i]?.getD false
+
+def parseField? : String → Option HdrField
+  | "version" => some .version | "prev" => some .prev | "root" => some .root
+  | "timestamp" => some .timestamp | "difficulty" => some .difficulty | "nonce" => some .nonce
+  | _ => none
+
+/-- `id` `hash` `as_bin` `header` `as_blockheader` `set_nonce:<n>` `set:<field>:<int or x<hex>>` -/
+def parseStep? (s : String) : Option ObjStep :=
+  match s.splitOn ":" with
+  | ["id"] => some .id
+  | ["hash"] => some .hash
+  | ["as_bin"] => some .asBin
+  | ["header"] => some .streamHeader
+  | ["as_blockheader"] => some .asBlockheader
+  | ["set_nonce", n] => (parseInt? n).map .setNonce
+  | ["set", f, v] => do
+    let f ← parseField? f
+    if v.startsWith "x" then
+      let b ← if v = "x" then some [] else DriverLib.decodeHexFast (v.drop 1).toString
+      some (.setBytes f b)
+    else (parseInt? v).map (.setInt f)
+  | _ => none
+
+def hexOrDash (b : Bytes) : String := if b.isEmpty then "-" else DriverLib.encodeHexFast b
+
+/-- what the step prints, on the state before it -/
+def answer (o : BlockObj) : ObjStep → String
+  | .hash => match o.hash with | .ok (h, _) => hexOrDash h | .error e => "err:" ++ e.tag
+  | .id => match o.hash with | .ok (h, _) => String.ofList (Tx.b2hRev h) | .error e => "err:" ++ e.tag
+  | .asBin => match Block.stream ⟨o.hdr, o.txs⟩ with | .ok b => hexOrDash b | .error e => "err:" ++ e.tag
+  | .streamHeader => match Block.streamHeader o.hdr with | .ok b => hexOrDash b | .error e => "err:" ++ e.tag
+  | _ => "-"
+
+def runSteps (o : BlockObj) : List ObjStep → List String
+  | [] => []
+  | s :: ss => answer o s :: runSteps (o.step s) ss
 
 def handle : Handler := fun op args =>
   match op, args with
@@ -66,5 +102,12 @@ def handle : Handler := fun op args =>
       | .ok b, .ok i => some s!"ok {DriverLib.encodeHexFast b} {String.ofList i} {rest.length}"
       | .error e, _ => some ("err " ++ e.tag)
       | _, .error e => some ("err " ++ e.tag)
+  -- a Block object's history: parse_as_header(<80 bytes>), then the steps; one answer per step
+  | "blk_seq", [hdr, steps] => do
+    let hdr ← DriverLib.decodeHexFast hdr
+    let steps ← (steps.splitOn ",").mapM parseStep?
+    match Block.parseAsHeader hdr with
+    | .error e => some ("err " ++ e.tag)
+    | .ok (h, _) => some ("ok " ++ "|".intercalate (runSteps ⟨h, [], none⟩ steps))
   | _, _ => none
 end Pycoin.Driver.C14
